@@ -502,6 +502,39 @@ def work(payload, skip, report):
                               "number or in-band error string")
             if i % 20011 == 0:
                 acc.sample(case)
+    elif kind == "opts":
+        # the expansion switches: with parser functions / #invoke switched off (calls are re-emitted) and under a selection,
+        # repeated and recursive calls still come back as a string - in one call and in a second call on the same page
+        ctx.add_page("Template:oi", 10, "<{{#invoke:nomod|f|{{{1|}}}}}>")
+        ctx.add_page("Template:oself", 10, "{{#invoke:nomod|f}}{{oself}}")
+        ctx.add_page("Template:opf", 10, "{{#if:{{{1|}}}|{{opf}}|{{#expr:1/0}}}}")
+        texts = ["{{#invoke:nomod|f}} {{#invoke:nomod|g|x}}", "{{oi|a}}{{oi|b}}", "{{oself}}", "{{opf|1}} {{opf}}", "{{#if:1|{{#invoke:nomod|f}}}}{{#invoke:nomod|f}}",
+                 "{{#expr:1+}} {{#expr:2+}}", "{{oi|{{oi|{{#invoke:nomod|f}}}}}}"]
+        i = 0
+        for text in texts:
+            for inv, pf, pre in itertools.product((False,), (True, False), (False, True)):     # (executing #invoke is C07's / C16's ground)
+                case = {"input": text, "expand_invoke": inv, "expand_parserfns": pf, "pre_expand": pre}
+                report(i)
+                i += 1
+                ctx.start_page("Tt")
+                acc.case()
+                for rep in (1, 2):
+                    try:
+                        with time_limit(5.0):
+                            got = ctx.expand(text, expand_invoke=inv, expand_parserfns=pf, pre_expand=pre,
+                                             templates_to_expand={"oi", "oself", "opf"} if pre else None)
+                        if not isinstance(got, str):
+                            acc.violation("returns_str", case, type(got).__name__, "str")
+                    except Timeout:
+                        acc.violation("returns_in_bounded_time", dict(case, call=rep), "no result within 5 s", "returns")
+                        break
+                    except RecursionError:
+                        acc.violation("no_exception", dict(case, call=rep), "RecursionError", "returns a string")
+                        break
+                    except Exception as e:
+                        acc.violation("no_exception", dict(case, call=rep), type(e).__name__ + ": " + str(e)[:80], "returns a string")
+                        break
+        acc.sample({"input": texts[0], "expand_invoke": False})
     elif kind == "ph":
         # page text that contains the package's own placeholder code points (private-use characters): each text runs in a
         # chunk of its own, so a hang is one watchdog kill
@@ -613,6 +646,7 @@ def main(run):
         chunks.append(("big", b))
     for t in placeholder_texts():
         chunks.append(("ph", t))
+    chunks.append(("opts",))
     done = 0
     for cid, acc, hung in run_chunks(work, chunks, nproc=run.nproc, case_timeout=20, mem_limit=4 << 30):
         run.acc.merge(acc)
